@@ -127,7 +127,7 @@ theorem lookup_eq_firstMatch (cfg : Config V) (hord : cfg.orderingDisabled = fal
     (firstGlob_none_of_no_glob cfg name ty)
 
 /-- Every configuration the loader produces satisfies the `doFSM` hypothesis of `lookup_eq_firstMatch`. -/
-theorem load_doFSMConsistent (rxOk : Bytes → Bool) (db : List V) (dq : List (V × V)) (raw : RawConfig V)
+theorem load_doFSMConsistent [NumOps V] (rxOk : Bytes → Bool) (db : List V) (dq : List (V × V)) (raw : RawConfig V)
     (cfg : Config V) (h : load rxOk db dq raw = .ok cfg) : DoFSMConsistent cfg :=
   SE.load_doFSMConsistent rxOk db dq raw cfg h
 
